@@ -160,6 +160,8 @@ class CleanupTranslator:
         rhs_pred = Predicate(rhs_symbol.name, len(rhs_symbol.arguments))
         # check for equality
         if lhs_pred == rhs_pred:
+            if rhs.sign == Sign.Negation:  # p(X) never implies not p(X)
+                return False
             for lhs_arg, rhs_arg in zip(lhs_symbol.arguments, rhs_symbol.arguments):
                 if rhs_arg.ast_type == ASTType.Variable and rhs_arg.name == "_":
                     continue
